@@ -25,13 +25,13 @@ def plan(tier):
 
 
 def floors(tier):
-    return {"min_decided": 150, "counters": {"children_compared": 300, "dates_compared": 10000, "children_never_funded": 5}, "max_undecided_frac": 0.3}
+    return {"min_decided": 150, "counters": {"children_compared": 300, "dates_compared": 10000, "children_never_funded": 5, "children_with_substrategies": 40}, "max_undecided_frac": 0.3}
 
 
 def run_case(unit, cs, idx, build, params):
     ins.install()
     ins.reset()
-    spec = w2.gen(cs, nested_p=1.0, deterministic=True, zero_weight_child=True, flows=True, pte=False)
+    spec = w2.gen(cs, nested_p=1.0, deterministic=True, zero_weight_child=True, flows=True, pte=False, deep_p=0.4)
     sig = w2.signature(spec)
     sample = w2.sample_of(spec)
     run = w2.run(spec)
@@ -69,6 +69,8 @@ def run_case(unit, cs, idx, build, params):
             common.bump(cnt, "children_never_funded")
         if sa_trades:
             nt = True
+        if any(k["type"] == "strat" for k in node.get("children") or []):
+            common.bump(cnt, "children_with_substrategies")
         w = {"child": node["name"], "case_seed": cs, "desc": spec["desc"], "child_stack": node["algos"]}
         if len(a) != len(b) or not a.index.equals(b.index):
             return common.result(common.VIOL, sig=sig, nt=True, cnt=cnt, mech="c09_length", witness=dict(w, nested=len(a), standalone=len(b)), sample=sample)
